@@ -43,6 +43,18 @@ func main() {
 		res.SetExtra("phase_seconds", map[string]float64{"hash_correspondence": t1.Sub(t0).Seconds(), "fixtures": time.Since(t1).Seconds()})
 	}
 
+	// phase "json": feeder JSON -> sn2core -> SanityCheckNewHeight on real fixture blocks
+	tJSON := time.Now()
+	runJSONTamper(f, res)
+	res.SetExtra("json_phase_seconds", time.Since(tJSON).Seconds())
+
+	// phase "wide": position-exhaustive tampering around multiples of the worker count (alone:
+	// it changes GOMAXPROCS)
+	tWide := time.Now()
+	runWide(f, res, nil)
+	res.SetExtra("wide_phase_seconds", time.Since(tWide).Seconds())
+	checkpoint(f, res)
+
 	// phase 2: a directed history first (its report is the most detailed one), then independent
 	// chains in parallel
 	tTamper := time.Now()
@@ -50,36 +62,49 @@ func main() {
 		runOldRootDirected(f, res, dstNew)
 	}
 	nChains := f.Scale(4, 12)
-	var tasks []chainTask
-	for c := 0; c < nChains; c++ {
-		for _, dstNew := range []bool{false, true} {
-			for slot := 0; slot < tamperSlots(f); slot++ {
-				tasks = append(tasks, chainTask{Chain: c, SrcNew: c%2 == 1, DstNew: dstNew, Slot: slot})
-			}
-		}
-	}
 	workers := runtime.NumCPU()
 	if workers > 16 {
 		workers = 16
 	}
-	ch := make(chan chainTask)
-	var wg sync.WaitGroup
-	for w := 0; w < workers; w++ {
-		wg.Add(1)
-		go func() {
-			defer wg.Done()
-			for t := range ch {
-				runTask(f, res, t, nil)
+	// two passes: everything that cannot crash the process first; the result file is checkpointed
+	// before the nil-dereference tamperings of the second pass
+	for _, risky := range []bool{false, true} {
+		var tasks []chainTask
+		for c := 0; c < nChains; c++ {
+			for _, dstNew := range []bool{false, true} {
+				for slot := 0; slot < tamperSlots(f); slot++ {
+					tasks = append(tasks, chainTask{Chain: c, SrcNew: c%2 == 1, DstNew: dstNew, Slot: slot, Risky: risky})
+				}
 			}
-		}()
+		}
+		ch := make(chan chainTask)
+		var wg sync.WaitGroup
+		for w := 0; w < workers; w++ {
+			wg.Add(1)
+			go func() {
+				defer wg.Done()
+				for t := range ch {
+					runTask(f, res, t, nil)
+				}
+			}()
+		}
+		for _, t := range tasks {
+			ch <- t
+		}
+		close(ch)
+		wg.Wait()
+		checkpoint(f, res)
 	}
-	for _, t := range tasks {
-		ch <- t
-	}
-	close(ch)
-	wg.Wait()
 	res.SetExtra("tamper_phase_seconds", time.Since(tTamper).Seconds())
 	lib.Finish(f, res)
+}
+
+// checkpoint writes what has been found so far: if a later tampering kills the process (a panic on
+// a goroutine of juno's cannot be recovered), ./check still reads the violations and their replays.
+func checkpoint(f lib.Flags, res *lib.Result) {
+	if f.Out != "" {
+		_ = res.Write(f.Out)
+	}
 }
 
 // runReplay re-runs the single offer named by a replay file written by ./check.
@@ -103,6 +128,10 @@ func runReplay(f lib.Flags, res *lib.Result) {
 	}
 	if rp.Tier != "" {
 		ff.Tier = rp.Tier
+	}
+	if rp.Wide != nil {
+		runWide(ff, res, rp.Wide)
+		return
 	}
 	runTask(ff, res, rp.Task, &rp)
 }
